@@ -88,27 +88,31 @@ func checkKnap(items []item, W int, out string, line string) *core.Failure {
 	if !validSelection(sel, len(items)) {
 		return fail("knapsack-invalid", "%q: selection %v is not a sub-selection using each item at most once", line, sel)
 	}
-	tw, tv := 0, 0
+	// weights are never added up here: every weight is compared with the room that is left and
+	// subtracted from it (non-negative weights ≤ room), so weights like math.MaxInt cannot wrap
+	// the oracle's own arithmetic
+	tv := 0
 	for _, id := range sel {
-		tw += items[id].w
 		tv += items[id].v
 	}
-	if tw > W {
-		return fail("knapsack-overweight", "%q: selection %v weighs %d > limit %d", line, sel, tw, W)
+	if used, ok := fitsLimit(items, func(i int) bool { return contains(sel, i) }, W); !ok {
+		return fail("knapsack-overweight", "%q: selection %v exceeds the limit %d (the items before the first one that no longer fits weigh %d)", line, sel, W, used)
 	}
 	best, bestMask := 0, 0
 	if len(items) > bruteMaxItems {
 		best = knapOptimumDP(items, W)
 	} else {
 		for mask := 0; mask < 1<<len(items); mask++ {
-			w, v := 0, 0
+			v := 0
 			for i := range items {
 				if mask>>i&1 == 1 {
-					w += items[i].w
 					v += items[i].v
 				}
 			}
-			if w <= W && v > best {
+			if v <= best {
+				continue
+			}
+			if _, ok := fitsLimit(items, func(i int) bool { return mask>>i&1 == 1 }, W); ok {
 				best, bestMask = v, mask
 			}
 		}
@@ -117,6 +121,31 @@ func checkKnap(items []item, W int, out string, line string) *core.Failure {
 		return fail("knapsack-suboptimal", "%q: selection %v has value %d, but the optimum within the limit is %d (subset mask %b; 0 = found by the dynamic-programming oracle)", line, sel, tv, best, bestMask)
 	}
 	return nil
+}
+
+func contains(ids []int, i int) bool {
+	for _, id := range ids {
+		if id == i {
+			return true
+		}
+	}
+	return false
+}
+
+// fitsLimit: do the chosen items (non-negative weights) fit into W?  The room left is reduced
+// item by item; no sum of weights is formed.  used = the weight packed before the first misfit.
+func fitsLimit(items []item, chosen func(i int) bool, W int) (used int, ok bool) {
+	room := W
+	for i := range items {
+		if !chosen(i) {
+			continue
+		}
+		if items[i].w > room {
+			return W - room, false
+		}
+		room -= items[i].w
+	}
+	return W - room, true
 }
 
 // bruteMaxItems: above this size the oracles are not brute force over 2^n subsets but an own
@@ -162,14 +191,16 @@ func checkKnapValue(items []item, W int, out string, line string) *core.Failure 
 	}
 	best, bestMask := 0, 0
 	for mask := 0; mask < 1<<len(items); mask++ {
-		w, v := 0, 0
+		v := 0
 		for i := range items {
 			if mask>>i&1 == 1 {
-				w += items[i].w
 				v += items[i].v
 			}
 		}
-		if w <= W && v > best {
+		if v <= best {
+			continue
+		}
+		if _, ok := fitsLimit(items, func(i int) bool { return mask>>i&1 == 1 }, W); ok {
 			best, bestMask = v, mask
 		}
 	}
@@ -407,11 +438,20 @@ func checkSolvMap(items []item, max int, over bool, m algz.DpSolvers[item], line
 	for _, q := range queries {
 		got := m.Best(q)
 		want, ok := bruteBest(keys, q)
+		// q = math.MaxInt and the only key ≤ q is 0: the code answers nil (maxValue - 0 is not below the
+		// initial minDiff = MaxInt); key 0 holds the empty selection, and nil IS the empty selection
+		nilIsEmpty := func() bool { return q == math.MaxInt && ok && want == 0 && got == nil && len(m[0]) == 0 }
+		if nilIsEmpty() {
+			ok = false
+		}
 		if (got == nil) != !ok || (ok && fmt.Sprint(idsOf(got)) != fmt.Sprint(idsOf(m[want]))) {
 			return fail("best-wrong", "%q: Best(%d) = %s on keys %v, want the selection of key %d (exists=%v)", line, q, showSel(got), keys, want, ok)
 		}
 		got = m.BestAllowMinOverflow(q)
 		want, ok = bruteBestO(keys, q)
+		if nilIsEmpty() {
+			ok = false
+		}
 		if (got == nil) != !ok || (ok && fmt.Sprint(idsOf(got)) != fmt.Sprint(idsOf(m[want]))) {
 			return fail("bestoverflow-wrong", "%q: BestAllowMinOverflow(%d) = %s on keys %v, want the selection of key %d (exists=%v)", line, q, showSel(got), keys, want, ok)
 		}
@@ -1037,6 +1077,30 @@ func classify(c core.Case, out []string) []string {
 		return nil
 	}
 	ls := []string{"kind:" + hdr[2]}
+	if hdr[2] == "dp" {
+		if items, ok := parseItems(hdr[3:]); ok {
+			nw, nv := 0, 0
+			for _, x := range items {
+				if x.w >= 1<<61 {
+					nw++
+				}
+				if x.v >= 1<<61 {
+					nv++
+				}
+			}
+			switch {
+			case nw >= 4:
+				ls = append(ls, "dp:≥4-sentinel-weights(≥2^61)")
+			case nw >= 2:
+				ls = append(ls, "dp:2-3-sentinel-weights(≥2^61)")
+			case nw == 1:
+				ls = append(ls, "dp:1-sentinel-weight(≥2^61)")
+			}
+			if nv > 0 {
+				ls = append(ls, "dp:value≥2^61(under-the-guard)")
+			}
+		}
+	}
 	for i, l := range c.Lines[1:] {
 		t := core.Toks(l)
 		o := out[i+1]
@@ -1071,6 +1135,12 @@ func classify(c core.Case, out []string) []string {
 			}
 		case "solv":
 			ls = append(ls, "solv:over="+t[2])
+			if mx, err := strconv.Atoi(t[1]); err == nil && mx >= 1<<61 {
+				ls = append(ls, "solv:maxValue≥2^61")
+				if mx >= math.MaxInt-1 {
+					ls = append(ls, "solv:maxValue≥MaxInt-1")
+				}
+			}
 			if len(hdr)-3 >= 34 {
 				ls = append(ls, "solv:≥17-items")
 			}
